@@ -29,6 +29,8 @@ func init() {
 			{ID: "C06-R6", Title: "nothing that runs scripts detaches from the caller's cancellation", Floor: 30, Run: ctxNotDetached},
 			{ID: "C06-R7", Title: "the VM passes on only contexts derived from the one it was given", Floor: 5, Run: ctxArgsDeriveFromParam},
 			{ID: "C06-R8", Title: "arm/disarm pairing on every exit (shared with C07-R2)", Floor: 2, Run: c07r2},
+			{ID: "C06-R9", Title: "child processes are killed on cancellation (a replaced Cmd.Cancel is bounded by WaitDelay)", Floor: 1, Run: cancelNeedsWaitDelay},
+			{ID: "C06-R10", Title: "clones are armed for the context before they are used", Floor: 2, Run: clonesArmedBeforeUse},
 		},
 	})
 }
@@ -58,6 +60,10 @@ func isHaltStore(info *types.Info, n ast.Node, halt *types.Var) (ast.Expr, bool)
 		cal := calleeOf(info, x)
 		if cal != nil && cal.Pkg() != nil && cal.Pkg().Path() == "sync/atomic" && strings.HasPrefix(cal.Name(), "Store") && len(x.Args) == 2 {
 			if u, ok := ast.Unparen(x.Args[0]).(*ast.UnaryExpr); ok && u.Op == token.AND && fieldOf(info, u.X) == halt {
+				return x.Args[1], true
+			}
+			// the flag kept behind a pointer field
+			if fieldOf(info, ast.Unparen(x.Args[0])) == halt {
 				return x.Args[1], true
 			}
 		}
